@@ -269,6 +269,8 @@ def obligations(tier):
                     for code in ((200, 404) if tier == 'quick' else (100, 101, 200, 204, 301, 304, 404, 500, 599)):
                         if tier == 'quick' and code != 200 and (nh == 0 or close):
                             continue
+                        if (code < 200 or code in (204, 304)) and (blen or chunked):
+                            continue        # these status codes never carry a body
                         obs.append({'name': 'res.%d.h%d.r%d.b%d%s%s' % (code, nh, rlen, blen, '.chunked' if chunked else '', '.close' if close else ''),
                                     'fn': 'res_roundtrip', 'cfg': {'code': code, 'nheaders': nh, 'rlen': rlen, 'blen': blen, 'chunked': chunked,
                                                                    'close': close}, 'timeout': T})
